@@ -17,10 +17,17 @@ Fail / Cnclld / CnclldMan, raise, blocked; each in queued and in direct mode) an
          to 40 foreign report parts (real reports of another consumer's transactions; bound: below the manager's 50 part
          buffer).  Oracle: reference model ``invocmodel.consumer_model`` (where the handle must complete and with which parts),
          bounded progress N = 0 delivered messages (synchronous dispatcher).
-(sched)  lock-granularity explorer on the consumer manager: its dict / deque are scheduling points; wherever the calling thread
-         touches them without holding the manager lock, the pending reports are delivered right there (= the notification
-         thread being scheduled).  On the intact code there is no such point.
-(yield)  sys.monitoring LINE yield injection inside SdcProvider.generate_transaction_id under 4 concurrent direct-mode consumers.
+(sched)  lock-granularity explorer on the consumer manager: its dict / deque are scheduling points.  'caller' side: wherever the
+         thread inside call_operation touches them without holding the manager lock, the pending reports are delivered right
+         there (= the notification thread being scheduled).  'reporter' side: a helper thread delivering one report is parked at
+         such a point, the caller gets its response and finishes call_operation, then the helper is resumed.  On the intact
+         code there is no such point (dry runs and protected points are counted).
+(yield)  sys.monitoring LINE yield injection (a) inside SdcProvider.generate_transaction_id under 4 concurrent direct-mode
+         consumers, (b) inside SingleValueCollector.__init__ (the round-trip collector every notification sender binds to the
+         soap client it shares with the other sending threads) under 3 concurrent consumers.
+Observation point added from outside: exceptions leaving BicepsSubscription.send_notification_report that originate in that
+collector.  Once one was seen the provider has dropped transactions and flagged subscriptions; everything the monitors see
+afterwards in that rig is folded into the single witness ``notify.collector_race`` (the rig is abandoned).
 """
 from __future__ import annotations
 
@@ -31,6 +38,7 @@ import itertools
 import sys
 import threading
 import time
+import traceback
 from collections import defaultdict, deque
 from decimal import Decimal
 
@@ -81,6 +89,34 @@ class CountingFuture(concurrent.futures.Future):
 
 
 cons_ops.Future = CountingFuture
+
+# ---------------------------------------------------------------------------------------------------------------------
+# observation point: exceptions that leave BicepsSubscription.send_notification_report and originate in the round-trip
+# collector (SingleValueCollector bound to the shared soap client by another thread)
+# ---------------------------------------------------------------------------------------------------------------------
+POISON: list[str] = []
+
+
+def _watch_notification_sender():
+    from sdc11073.provider import subscriptionmgr
+    cls = subscriptionmgr.BicepsSubscription
+    if getattr(cls, 'vf_watched', False):
+        return
+    orig = cls.send_notification_report
+
+    def send_notification_report(self, body_node, action):
+        try:
+            return orig(self, body_node, action)
+        except (AttributeError, TypeError) as ex:
+            frames = traceback.extract_tb(ex.__traceback__)
+            if any('valuecollector' in (f.filename or '') or 'roundtrip_time' in (f.line or '') for f in frames):
+                POISON.append(f'{action.rsplit("/", 1)[-1]}: {ex!r}'[:200])
+            raise
+    cls.send_notification_report = send_notification_report
+    cls.vf_watched = True
+
+
+_watch_notification_sender()
 
 
 # ---------------------------------------------------------------------------------------------------------------------
@@ -208,8 +244,37 @@ class Rig:
         self.netlocs = [f'{c.vf_server.host}:{c.vf_server.port}' for c in self.consumers]
         self.calls = []  # call records
         self.calls_lock = threading.Lock()
+        self.consequences = defaultdict(int)
+        self.poison_reported = False
+        del POISON[:]
         self.seen_ids = {}  # txid -> request summary (all evaluations of this rig)
         self.max_done = (-1, None)  # highest id whose response had returned, its request
+
+    # -- witnesses ------------------------------------------------------------------------------------------------
+    INDEPENDENT = ('transaction_id.', 'automaton.final_mismatch.direct.response_Fin', 'unknown_op.')
+
+    def witness(self, key, what, detail=None):
+        """once a notification sender was hit by the collector race, the provider's subscriptions are flagged and transactions
+        were dropped: whatever the monitors see from then on in this rig is a consequence and is folded into ONE witness."""
+        if POISON and not key.startswith(self.INDEPENDENT):
+            self.consequences[key] += 1
+            return
+        self.ctx.witness(key, what, detail)
+
+    @property
+    def poisoned(self):
+        return bool(POISON)
+
+    def flush_poison(self):
+        if POISON and not self.poison_reported:
+            self.poison_reported = True
+            self.ctx.count('race.collector_exceptions', len(POISON))
+            self.ctx.witness('notify.collector_race',
+                             'a notification sender raised AttributeError/TypeError out of SingleValueCollector (bound to the shared '
+                             'soap client by another sending thread before its fields were initialised); transactions lost their '
+                             'remaining reports',
+                             {'exceptions': POISON[:6], 'n_exceptions': len(POISON), 'consequences_seen_by_the_monitors': dict(self.consequences),
+                              'mdib_file': self.mdib_file})
 
     # -- operations -----------------------------------------------------------------------------------------------
     def _first_of(self, *localnames):
@@ -419,10 +484,10 @@ class Rig:
             txid = r['resp']['txid']
             ctx.count('wire.responses_with_id')
             if txid is None:
-                ctx.witness('transaction_id.missing', 'a Set response carries no TransactionId', {'request': r['req']})
+                self.witness('transaction_id.missing', 'a Set response carries no TransactionId', {'request': r['req']})
                 continue
             if txid in seen:
-                ctx.witness('transaction_id.not_unique', 'two requests got the same TransactionId',
+                self.witness('transaction_id.not_unique', 'two requests got the same TransactionId',
                             {'txid': txid, 'a': seen[txid]['req'], 'b': r['req'], 'threads': [seen[txid]['thread'], r['thread']]})
             seen[txid] = {'req': r['req'], 'thread': r['thread']}
         events = []
@@ -437,7 +502,7 @@ class Rig:
                 if max_done_req is not None:
                     pairs += 1
                     if r['resp']['txid'] <= max_done:
-                        ctx.witness('transaction_id.not_increasing',
+                        self.witness('transaction_id.not_increasing',
                                     'request B was issued after the response of A had returned, but id_B <= id_A',
                                     {'id_a': max_done, 'id_b': r['resp']['txid'], 'a': max_done_req['req'], 'b': r['req']})
             elif r['resp']['txid'] > max_done:
@@ -479,7 +544,7 @@ class Rig:
                     if (key, text) in emitted:
                         continue  # the other subscribers saw the same
                     emitted.add((key, text))
-                    ctx.witness(key, text, {'where': where, 'txid': txid, 'request': r['req'], 'response_state': r['resp']['state'],
+                    self.witness(key, text, {'where': where, 'txid': txid, 'request': r['req'], 'response_state': r['resp']['state'],
                                             'report_states': states, 'handler': hl, 'subscriber': netloc, 'mdib_file': self.mdib_file})
                 final_states.update(s for s in [r['resp']['state']] + states if s in im.FINAL)
             result[txid] = {'final': sorted(final_states), 'views': views, 'resp': r['resp'], 'mode': mode}
@@ -487,10 +552,10 @@ class Rig:
             if hl and hl[0] == 'raise':
                 ctx.count(f'raise.checked.{mode}')
                 if final_states != {'Fail'}:
-                    ctx.witness(f'raise.not_fail.{mode}', 'the handler raised, the transaction does not end in Fail (only)',
+                    self.witness(f'raise.not_fail.{mode}', 'the handler raised, the transaction does not end in Fail (only)',
                                 {'txid': txid, 'request': r['req'], 'finals': sorted(final_states), 'handler': hl})
                 if not any(m.get('error') or any(m.get('error_msgs') or []) for m in all_msgs):
-                    ctx.witness(f'raise.no_error_info.{mode}', 'the handler raised, no message of the transaction carries '
+                    self.witness(f'raise.no_error_info.{mode}', 'the handler raised, no message of the transaction carries '
                                 'InvocationError / InvocationErrorMessage', {'txid': txid, 'request': r['req'], 'handler': hl})
             elif hl and hl[0] == 'return':
                 ctx.count(f'handler_returned.{hl[1]}.{mode}')
@@ -500,7 +565,7 @@ class Rig:
             if not known:
                 ctx.count('unknown_op.responses')
                 if r['resp']['state'] != 'Fail' or any(p['state'] != 'Fail' for v in views.values() for p in v):
-                    ctx.witness(f'unknown_op.not_fail.{r["req"]["kind"]}', 'request for an unknown operation handle did not fail',
+                    self.witness(f'unknown_op.not_fail.{r["req"]["kind"]}', 'request for an unknown operation handle did not fail',
                                 {'request': r['req'], 'response': r['resp']})
         for r in requests:
             if r['resp'].get('fault'):
@@ -519,7 +584,7 @@ class Rig:
                 ctx.count('future.call_raised')
                 resp = im.parse_response(entry.response or b'') if entry is not None and entry.status is not None else None
                 if resp is not None and not resp.get('fault'):
-                    ctx.witness('future.call_raised_on_valid_response', 'the service client raised although the provider '
+                    self.witness('future.call_raised_on_valid_response', 'the service client raised although the provider '
                                 'answered with a Set response', {**detail, 'exc': rec['exc'], 'response': resp})
                 continue
             ctx.count('future.returned')
@@ -528,11 +593,11 @@ class Rig:
             detail['txid'] = txid
             detail['response_state'] = resp.get('state')
             if not fut.done():
-                ctx.witness(f'future.not_completed.{where}', 'all messages of the transaction were delivered and handled, the '
+                self.witness(f'future.not_completed.{where}', 'all messages of the transaction were delivered and handled, the '
                             'result handle is not completed', {**detail, 'wire': wire_result.get(txid, {}).get('final')})
                 continue
             if len(fut.vf_sets) != 1:
-                ctx.witness('future.completed_twice', f'set_result called {len(fut.vf_sets)} times', detail)
+                self.witness('future.completed_twice', f'set_result called {len(fut.vf_sets)} times', detail)
             res = fut.result()
             self.check_result_object(res, txid, detail)
             want = [p['state'] for p in wire_result.get(txid, {}).get('views', {}).get(self.netlocs[rec['ci']], [])]
@@ -559,25 +624,25 @@ class Rig:
             ctx.count('obs.parts_differ_beyond_buffer_bound')
             return
         if any(got.count(s) > want.count(s) for s in set(got)):
-            ctx.witness('future.parts_duplicated', 'a report part appears more often in the result than it was delivered', detail)
+            self.witness('future.parts_duplicated', 'a report part appears more often in the result than it was delivered', detail)
         elif _is_subsequence(got, want):
-            ctx.witness(f'future.parts_missing.{where}', 'the result lacks report parts of its transaction that were delivered '
+            self.witness(f'future.parts_missing.{where}', 'the result lacks report parts of its transaction that were delivered '
                         'before it completed', detail)
         else:
-            ctx.witness('future.parts_out_of_order', 'report parts of the result are not in delivery order', detail)
+            self.witness('future.parts_out_of_order', 'report parts of the result are not in delivery order', detail)
 
     def check_result_object(self, res, txid, detail):
         ctx = self.ctx
         state = getattr(res.InvocationInfo.InvocationState, 'value', None)
         if state not in im.FINAL:
-            ctx.witness('future.nonfinal_result', f'the result handle completed with the state {state}', detail)
+            self.witness('future.nonfinal_result', f'the result handle completed with the state {state}', detail)
         if txid is not None:
             if res.InvocationInfo.TransactionId != txid:
-                ctx.witness('future.wrong_transaction_result', 'InvocationInfo of the result belongs to another transaction',
+                self.witness('future.wrong_transaction_result', 'InvocationInfo of the result belongs to another transaction',
                             {**detail, 'result_txid': res.InvocationInfo.TransactionId})
             foreign = [p.InvocationInfo.TransactionId for p in res.report_parts if p.InvocationInfo.TransactionId != txid]
             if foreign:
-                ctx.witness('future.wrong_transaction_parts', 'the result carries report parts of other transactions',
+                self.witness('future.wrong_transaction_parts', 'the result carries report parts of other transactions',
                             {**detail, 'foreign_txids': foreign})
         return state
 
@@ -633,6 +698,9 @@ def w_live_sequential(ctx: core.Ctx, arg):
                 rig.quiesce()
                 result, reports, _ = rig.evaluate_wire(where='live.seq')
                 rig.evaluate_futures(result, reports, where='live')
+                rig.flush_poison()
+            if rig.poisoned:
+                break
         if arg.get('sample'):
             ctx.sample({'kind': 'live sequential', 'mdib_file': arg['mdib_file'],
                         'operations': [s['op'] for s in rig.tutorial_ops] + [f'{len(rig.harness_ops)} harness operations'],
@@ -652,6 +720,9 @@ def w_live_concurrent(ctx: core.Ctx, arg):
     try:
         if arg.get('yield_injection'):
             uninstall = _install_yield(type(rig.prov).generate_transaction_id.__code__, ctx)
+        if arg.get('yield_collector'):
+            from sdc11073.observableproperties.valuecollector import SingleValueCollector
+            uninstall = _install_yield(SingleValueCollector.__init__.__code__, ctx)
         if arg.get('tiny_switch'):
             sys.setswitchinterval(1e-5)
         for rnd in range(arg['rounds']):
@@ -678,9 +749,13 @@ def w_live_concurrent(ctx: core.Ctx, arg):
             result, reports, _ = rig.evaluate_wire(where='live.conc')
             rig.evaluate_futures(result, reports, where='live')
             ctx.count('live.concurrent_rounds')
+            rig.flush_poison()
             for plan in plans:
                 for spec, _n in plan:
-                    ctx.case(('live.conc', arg['n_consumers'], spec['kind'], spec['outcome'], spec['mode'], bool(arg.get('yield_injection'))))
+                    ctx.case(('live.conc', arg['n_consumers'], spec['kind'], spec['outcome'], spec['mode'], bool(arg.get('yield_injection')),
+                              bool(arg.get('yield_collector'))))
+            if rig.poisoned:
+                break  # subscriptions are flagged, transactions dropped: this rig says nothing more
     except Watchdog as ex:
         ctx.not_decided(f'watchdog (live concurrent): {ex}')
     finally:
@@ -749,6 +824,9 @@ def w_live_burst(ctx: core.Ctx, arg):
             rig.evaluate_futures(result, reports, where='live')
             ctx.case(('live.burst', burst, len(rig.consumers), bool(arg.get('mixed')), bool(arg.get('real_timeout'))))
             ctx.count('burst.done')
+            rig.flush_poison()
+            if rig.poisoned:
+                break
     except Watchdog as ex:
         ctx.not_decided(f'watchdog (live burst): {ex}')
     finally:
@@ -861,6 +939,9 @@ class PermDriver:
                 state['post'] = post
                 for m in pre:
                     self.deliver(m)
+                exp = state.get('explorer')
+                if exp is not None and exp.side == 'reporter' and post:
+                    exp.start_reporter(post.pop(0))  # its delivery starts before the response is handed over
                 self.events.append(('R',))
             except Exception as ex:  # noqa: BLE001
                 state['error'] = ex
@@ -869,13 +950,17 @@ class PermDriver:
         explorer = None
         if sched is not None:
             explorer = Explorer(self, state, sched)
+            state['explorer'] = explorer
         self.last_explorer = explorer
         try:
             rec = rig.issue(0, spec, 0, variant)
         finally:
             self.tap.on_set_done = None
             if explorer:
-                explorer.detach()
+                try:
+                    explorer.finish_reporter()
+                finally:
+                    explorer.detach()
         with rig.calls_lock:
             rig.calls.clear()
         if isinstance(state['error'], Watchdog):
@@ -1020,8 +1105,13 @@ class Explorer:
 
     def __init__(self, driver, state, sched):
         self.driver, self.state = driver, state
-        self.target, self.how_many = sched
-        self.thread = threading.get_ident()
+        self.side, self.target, self.how_many = sched
+        # 'caller': the observed thread is the one inside call_operation, the pending reports are delivered at its unprotected
+        # points.  'reporter': the observed thread is a helper delivering one report; at its unprotected point it is paused,
+        # the caller receives the response and finishes call_operation, then the helper is resumed.
+        self.thread = threading.get_ident() if self.side == 'caller' else None
+        self.paused, self.resume, self.helper_done = threading.Event(), threading.Event(), threading.Event()
+        self.helper = None
         self.in_hook = False
         self.unprotected = []
         self.protected = 0
@@ -1043,6 +1133,12 @@ class Explorer:
         self.unprotected.append(name)
         if len(self.unprotected) - 1 != self.target:
             return
+        if self.side == 'reporter':
+            self.driver.ctx.count('sched.reporter_paused_at_unprotected_point')
+            self.paused.set()
+            if not self.resume.wait(WATCHDOG_S):
+                self.driver.ctx.not_decided('explorer: paused reporter thread was never resumed (watchdog)')
+            return
         self.in_hook = True
         try:
             pending = [m for m in self.state['post'] if not m.get('vf_delivered')][:self.how_many]
@@ -1052,6 +1148,29 @@ class Explorer:
                 self.driver.ctx.count('sched.injected_at_unprotected_point')
         finally:
             self.in_hook = False
+
+    def start_reporter(self, msg):
+        """deliver msg in a helper thread; returns when the helper is done or parked at the chosen unprotected point."""
+        def body():
+            self.thread = threading.get_ident()
+            try:
+                self.driver.deliver(msg)
+            finally:
+                self.helper_done.set()
+        self.helper = threading.Thread(target=body, name='vf-reporter')
+        self.helper.start()
+        t_end = time.time() + WATCHDOG_S
+        while not (self.paused.is_set() or self.helper_done.is_set()):
+            if time.time() > t_end:
+                raise Watchdog('reporter helper neither finished nor paused')
+            time.sleep(0.0002)
+
+    def finish_reporter(self):
+        self.resume.set()
+        if self.helper is not None:
+            self.helper.join(WATCHDOG_S)
+            if self.helper.is_alive():
+                raise Watchdog('reporter helper did not finish')
 
     def detach(self):
         mgr = self.mgr
@@ -1103,15 +1222,15 @@ def w_perm(ctx: core.Ctx, arg):
             if spec['mode'] != 'queued' or spec['outcome'] not in ('ok', 'tutorial', 'raise'):
                 continue
             for r_pos in (0, 1, 2):
-                drv.run_case(spec, (0, 1, 2), [1, 1, 1], r_pos, 0, rng, sched=(-1, 0))
-                ctx.count('sched.dry_runs')
-                unprot = len(drv.last_explorer.unprotected)
-                if unprot:
+                for side in ('caller', 'reporter'):
+                    drv.run_case(spec, (0, 1, 2), [1, 1, 1], r_pos, 0, rng, sched=(side, -1, 0))
+                    ctx.count('sched.dry_runs')
+                    unprot = len(drv.last_explorer.unprotected)
                     for target in range(min(unprot, 8)):
-                        for how_many in (1, 2, 3):
-                            drv.run_case(spec, (0, 1, 2), [1, 1, 1], r_pos, 0, rng, sched=(target, how_many))
-                            ctx.case(('sched', spec['kind'], spec['outcome'], r_pos, target, how_many))
-                ctx.case(('sched.dry', spec['kind'], spec['outcome'], r_pos))
+                        for how_many in ((1, 2, 3) if side == 'caller' else (1,)):
+                            drv.run_case(spec, (0, 1, 2), [1, 1, 1], r_pos, 0, rng, sched=(side, target, how_many))
+                            ctx.case(('sched', side, spec['kind'], spec['outcome'], r_pos, target, how_many))
+                    ctx.case(('sched.dry', side, spec['kind'], spec['outcome'], r_pos))
         rig.quiesce()
         rig.evaluate_wire(where='perm')
     except Watchdog as ex:
@@ -1127,8 +1246,10 @@ def run(ctx: core.Ctx):
                 'tutorial, queued/direct, origin, workload sequential/concurrent/burst), judged on the wire (ids, automaton, error '
                 'info) and on its Future; perm: one case = one real transaction whose response and 1-3 reports are delivered to the '
                 'consumer in one of all orders (permutation x grouping into multi-part messages x response position) with 0-40 '
-                'foreign parts, shape = (kind, outcome, mode, order, grouping, response position, foreign yes/no); sched: one '
-                'case per unprotected scheduling point x pending reports (none on the intact tree; dry runs counted). '
+                'foreign parts (pool: earlier transactions of a second consumer; fresh: transactions started after the own one, '
+                'higher ids), shape = (kind, outcome, mode, order, grouping, response position, foreign yes/no); sched: one case '
+                'per side (caller/reporter) x unprotected scheduling point x pending reports (none on the intact tree; dry runs '
+                'counted). '
                 'Non-trivial: the provider answered with a Set response (faults are counted as observations only).')
     ctx.assumptions += [
         'reports of one transaction reach one subscriber through one HTTP connection; all permutations are nevertheless exercised',
@@ -1136,7 +1257,10 @@ def run(ctx: core.Ctx):
         'bounded progress restatement: synchronous dispatcher, the Future must be done when the deciding message has been handled (N=0); '
         'deferred dispatcher: after a sentinel passed its queue',
         'an immediately final Fail/Cnclld/CnclldMan response completes the Future with an empty part list: accepted (DESIGN C09 S)',
-        'queue.Full after put(timeout=1): SOAP fault after an id was consumed = legal "fault, no states" observation',
+        'queue.Full after put(timeout=1): SOAP fault after an id was consumed = legal "fault, no states" observation; the 1 s '
+        'timeout is virtualised (MonitoredQueue.vf_fast_full: a put with timeout on a full queue raises at once) except in one burst',
+        'sco.time is left real (two 1 ms sleeps per queued transaction); quiescence is decided on the monitored worker queue',
+        'statement-strict automaton: response Wait requires reports [Wait] Start Final; Wait report optional',
     ]
     q = ctx.quick
     jobs = []
@@ -1151,6 +1275,9 @@ def run(ctx: core.Ctx):
     for i in range(1 if q else 3):
         jobs.append({'w': 'conc', 'i': 100 + i, 'mdib_file': 'mdib_two_mds.xml', 'n_consumers': 4, 'rounds': 2 if q else 6,
                      'per_thread': 15 if q else 30, 'sync': True, 'yield_injection': True, 'direct_only': True})
+    for i in range(1 if q else 2):
+        jobs.append({'w': 'conc', 'i': 200 + i, 'mdib_file': files[i % len(files)], 'n_consumers': 3, 'rounds': 2 if q else 4,
+                     'per_thread': 10 if q else 20, 'sync': True, 'yield_collector': True})
     jobs.append({'w': 'burst', 'mdib_file': 'mdib_two_mds.xml', 'n_consumers': 3, 'bursts': [5, 14] if q else [5, 11, 12, 20, 30], 'mixed': False})
     jobs.append({'w': 'burst', 'mdib_file': '70041_MDIB_Final.xml', 'n_consumers': 4, 'bursts': [24] if q else [9, 17, 24, 30], 'mixed': True})
     jobs.append({'w': 'burst', 'mdib_file': 'mdib_two_mds.xml', 'n_consumers': 4, 'bursts': [13] if q else [13, 16], 'mixed': False,
